@@ -528,6 +528,13 @@ class ElemSources:
                 return {"LISTING"}
             if last in ("sorted", "list", "tuple", "set", "reversed", "fromkeys", "unique", "copy") and e.args:
                 return rec(e.args[0])
+            if last in ("chain",) and e.args:
+                out = set()
+                for a in e.args:
+                    out |= rec(a.value) if isinstance(a, ast.Starred) else rec(a)
+                return out
+            if last in ("getattr",) and len(e.args) >= 2 and isinstance(e.args[1], ast.Constant):
+                return {f"attr:{e.args[1].value}"}
             if last == "copy" and isinstance(e.func, ast.Attribute):
                 return rec(e.func.value)
             if isinstance(e.func, ast.Name) and f"{self.module}.{e.func.id}" in self.py.functions:
